@@ -10,3 +10,7 @@ claim('C13',
       "Bounded symbolic model checking of the real on-disk transposition on an h5py model: every sparsity pattern of the listed shapes, symbolic stored values, every block size of the three internal loops (generalised memory-budget floor), with/without value array and every minor-axis sub-range; plus the hyperslab tiling arithmetic and CSR concatenation. Values are compared by term identity, i.e. for all values.",
       "h5py replaced by an in-memory model that enforces chunk-shape / ordered-selection / read-only preconditions (validated against real h5py by the self-test, which re-runs sampled inputs through real files); the floor max(100,.) is generalised to small block sizes so that multi-block loops are reached with <=9 stored entries",
       "DESIGN.md §4 C13")
+claim('C05',
+      "Bounded symbolic model checking of the real row iterators and sparse loaders on an h5py model: every sparsity pattern of the listed shapes with symbolic stored values, dense/CSR/CSC, X and a named layer, a symbolic row-chunk size, every block size of the CSC->CSR conversion, every contiguous sub-range and every duplicate-free row list; delivered values are compared with the stored ones by term identity.",
+      "h5py model and a 12-line scipy.sparse.csr_matrix.toarray model stand in for the libraries (self-test re-runs sampled inputs through real h5py/scipy files); HDF5 chunk layout and dtype conversion inside libhdf5 are outside; row lists with repeats are outside (docstring says set of rows)",
+      "DESIGN.md §4 C05")
